@@ -273,7 +273,15 @@ def elaborate(prog, pi, ctx, res):
         defaults = None
         extra = None
         if prog['defaults'] is not None:
-            defaults = {}
+            # the caller may well build one defaults dict and pass the same object to several
+            # conditional blocks of a design: every second defaults-program of a block does so
+            reuse = getattr(ctx, 'defaults_obj', None)
+            if reuse is not None and pi % 2 == 1:
+                defaults = reuse
+                res.probes.hit('defaults_dict_object_reused')
+            else:
+                defaults = {}
+            ctx.defaults_obj = defaults
             for k, v in prog['defaults'].items():
                 defaults[live[int(k)]] = ctx.data[1] if v == 'd1' else v
             if prog.get('mention_only'):
